@@ -124,6 +124,7 @@ func TestC07Stream(t *testing.T) {
 		c.Eval()
 		desc := fmt.Sprintf("%d conformant and %d rejected frames (%d rejected before the last conformant one), %d bytes in %d reads, consumer=%d GOMAXPROCS=%d, final header with length %d", len(wantKeys), rej, rejBeforeLast, len(stream), len(sc.chunks), sc.consumer, sc.procs, shortTail)
 		rep := map[string]any{"script": desc, "frame_sizes": frameSizes(frames, 60)}
+		sc.awaited = multiset(wantKeys) // wait for the conformant frames; what rejected frames are handed over as does not count
 		got, errs, timedOut, _ := runInbound(sc, ofParser{}, func(m util.Message) string { return obs.Deep(m) }, len(wantKeys))
 		want := multiset(wantKeys)
 		extras := 0
